@@ -170,7 +170,57 @@ def _order_preserving_filter(fn_node, name, attr):
     return False
 
 
+def r4i_record_order(ctx):
+    """deciding rule (interpreted): the records the GenBank writer produces for several genes, presented in other orders
+    (reversed, rotated, genes interleaved record by record), give the same gene models through the locus-tag parser (and
+    the hybrid parser) as in file order.  Uses the re-parse machinery of C12.RP."""
+    from . import c12
+    from ..genekernel import gene_interp
+    from ..lockernel import strands
+    r, repo = ctx.r, ctx.repo
+    it = c12.bio_hooks(gene_interp(repo, max_steps=10 ** 10))
+    S = strands(it)
+    n = 0
+    for idxs, flavor in (((1, 3, 6), "EUKARYOTIC"), ((1, 3, 0), "PROKARYOTIC"), ((2, 5), "EUKARYOTIC")):
+        ms = sorted((c12.MODELS[i] for i in idxs), key=lambda m: min(t["exons"][0][0] for t in m["txs"]))
+        try:
+            feats = c12.written_features(repo, it, S, ms, flavor)
+        except Raised as ex:
+            r.violation("C18.R4", "io.genbank.writer:gene_to_feature", "export", f"writing genes {[m['id'] for m in ms]} raises {ex.exc_name}", None)
+            continue
+        by_tag = {}
+        for f_ in feats:
+            by_tag.setdefault(f_.fields["qualifiers"]["locus_tag"][0], []).append(f_)
+        interleaved = []
+        cols = list(by_tag.values())
+        for j in range(max(len(c) for c in cols)):
+            interleaved += [c[j] for c in cols if j < len(c)]
+        orders = {"reversed": list(reversed(feats)), "rotated": feats[1:] + feats[:1], "genes interleaved record by record": interleaved,
+                  "children before their gene record": [x for x in feats if x.fields["type"] != "gene"] + [x for x in feats if x.fields["type"] == "gene"]}
+        for pname in ("LocusTagGenBankParser", "HybridGenBankParser"):
+            ref = c12.parse_with(repo, it, pname, feats)
+            q = f"io.genbank.parser:{pname}.parse"
+            fn = repo.fn(q)
+            if isinstance(ref, tuple):
+                r.violation("C18.R4", q, f"file order ({flavor.lower()})", f"genes {[m['id'] for m in ms]} {flavor}: {pname} refuses the written records: {ref[1]}", fn)
+                continue
+            for oname, order in orders.items():
+                n += 1
+                got = c12.parse_with(repo, it, pname, order)
+                same = not isinstance(got, tuple) and sorted(map(repr, got)) == sorted(map(repr, ref))
+                r.check(same, "C18.R4", q, f"records {oname} ({flavor.lower()}, {len(ms)} genes)",
+                        f"genes {[m['id'] for m in ms]} {flavor}: with the records {oname} {pname} recovers "
+                        f"{('an error: ' + got[1]) if isinstance(got, tuple) else str(len(got)) + ' gene models that differ from file order'}; "
+                        f"grouping by locus tag must not depend on the order of the records", fn)
+    r.floor("C18.R4", "record-order evaluations", n, 16)
+
+
 def r4_groupby(ctx):
+    ctx.r.soften("C18.R4s")  # strengthening (all files): locus-tag groupby inputs are sorted by locus tag; never alarms
+    _r4_groupby(ctx)
+
+
+def _r4_groupby(ctx):
     """locus-tag grouping consumes input sorted by locus tag: directly, or through the parser attribute it is stored in"""
     r, repo = ctx.r, ctx.repo
     m = repo.module("io.genbank.parser")
@@ -189,7 +239,7 @@ def r4_groupby(ctx):
                 subj = f"groupby by locus tag in {fn.name}"
                 if isinstance(it_arg, ast.Call) and call_tail(it_arg) == "sorted":
                     skey = next((k.value for k in it_arg.keywords if k.arg == "key"), None)
-                    r.check(skey is not None and (src(skey) == src(key) or _refines(skey, key)), "C18.R4", fn.qual, subj,
+                    r.check(skey is not None and (src(skey) == src(key) or _refines(skey, key)), "C18.R4s", fn.qual, subj,
                             f"`{src(call)[:120]}`: the input is sorted by another key than the grouping key", (fn, call))
                     continue
                 if isinstance(it_arg, ast.Name) and it_arg.id in fn.pos_params:
@@ -230,15 +280,15 @@ def r4_groupby(ctx):
                                         continue  # the position-sorted list is grouped by position elsewhere; only flag when it feeds this site
                                     if not good:
                                         ok_all, why = False, f"{f3.qual} stores `{src(val)[:60]}` into {attr} without sorting by locus tag"
-                    r.check(ok_all, "C18.R4", fn.qual, subj,
+                    r.check(ok_all, "C18.R4s", fn.qual, subj,
                             f"`{src(call)[:90]}` groups its parameter by locus tag, but {why}: genes then depend on the order of records", (fn, call))
                     continue
                 if fn.name == "_parse_features":
                     # non-gene features (the property's clause is about genes): reported as an observation only
                     r.note(f"C18.R4: {fn.qual} groups `{src(it_arg)[:50]}` (non-gene features) by locus tag without sorting")
                     continue
-                r.undecide("C18.R4", fn.qual, subj, f"cannot trace the grouped input `{src(it_arg)[:60]}`", (fn, call))
-    r.floor("C18.R4", "locus-tag groupby sites", n, 2)
+                r.undecide("C18.R4s", fn.qual, subj, f"cannot trace the grouped input `{src(it_arg)[:60]}`", (fn, call))
+    r.floor("C18.R4s", "locus-tag groupby sites", n, 2)
 
 
 def r5_interval_merge(ctx):
@@ -294,6 +344,7 @@ def r5_interval_merge(ctx):
 RULES = [
     ("C18.RK", rk_name_id),
     ("C18.R2", r2_tables),
-    ("C18.R4", r4_groupby),
+    ("C18.R4", r4i_record_order),
+    ("C18.R4s", r4_groupby),
     ("C18.R5", r5_interval_merge),
 ]
